@@ -259,7 +259,9 @@ OT = yfactory.OperatorType
 def custom_tc(rng, idx):
     """random sequence of insert_operator calls on a fresh factory; the model
     applies the documented meaning to its own group list."""
-    f = yaql.YaqlFactory()
+    # the factory may have been created without a keyword operator ('' and None both switch named arguments off)
+    kwop = rng.choice(('=>', '=>', '', None))
+    f = yaql.YaqlFactory() if kwop == '=>' else yaql.YaqlFactory(keyword_operator=kwop)
     groups = []     # model: list of groups, each a list of records
     cur = []
     for r in f.operators:
@@ -269,7 +271,7 @@ def custom_tc(rng, idx):
         else:
             cur.append(tuple(r))
     groups.append(cur)
-    build = []
+    build = [] if kwop == '=>' else [['factory', kwop]]
     used = set()
     for _ in range(rng.randrange(1, 5)):
         sym, alias = rng.choice([o for o in NEW_OPS if o[0] not in used])
@@ -461,6 +463,9 @@ def replay(data, rec):
     else:
         f = yaql.YaqlFactory()
         for b in data['build']:
+            if b[0] == 'factory':
+                f = yaql.YaqlFactory(keyword_operator=b[1])
+                continue
             if b == ['create']:
                 f.create()
                 continue
